@@ -1,0 +1,182 @@
+//go:build verif
+
+package kcp
+
+import (
+	"fmt"
+	"runtime"
+	"sync"
+	"unsafe"
+)
+
+// Pool sanitizer for the verification harness. Mode 0 (default): inactive,
+// the sync.Pool is used as usual. Mode 1 (quarantine): recycled buffers are
+// poisoned and kept out of circulation; a second Put of the same buffer is a
+// double recycle, a quarantined buffer that is no longer all poison is a
+// write after recycle. Mode 2 (reuse-LIFO): recycled buffers are poisoned and
+// the most recently recycled one is handed to the next Get.
+
+const (
+	VerifPoolOff = iota
+	VerifPoolQuarantine
+	VerifPoolLIFO
+)
+
+const verifPoison = 0xA5
+
+type verifPoolRec struct {
+	buf   []byte
+	freed bool
+	stack string
+}
+
+var verifPool struct {
+	sync.Mutex
+	mode       int
+	stacks     bool
+	recs       map[uintptr]*verifPoolRec
+	quarantine []uintptr // FIFO of freed buffers (mode 1) / LIFO stack (mode 2)
+	limit      int
+	gets, puts uint64
+	owned      int
+	maxOwned   int
+	faults     []string
+}
+
+// VerifPoolMode resets the sanitizer and selects a mode. limit bounds the
+// number of quarantined buffers (oldest are checked and released first).
+func VerifPoolMode(mode int, limit int, stacks bool) {
+	p := &verifPool
+	p.Lock()
+	defer p.Unlock()
+	p.mode = mode
+	p.stacks = stacks
+	p.recs = make(map[uintptr]*verifPoolRec)
+	p.quarantine = nil
+	if limit <= 0 {
+		limit = 4096
+	}
+	p.limit = limit
+	p.gets, p.puts, p.owned, p.maxOwned = 0, 0, 0, 0
+	p.faults = nil
+}
+
+// VerifPoolStats is what the sanitizer has seen since VerifPoolMode.
+type VerifPoolStats struct {
+	Gets, Puts      uint64
+	Owned, MaxOwned int
+	Faults          []string
+}
+
+// VerifPoolReport checks every quarantined buffer and returns the statistics.
+func VerifPoolReport() VerifPoolStats {
+	p := &verifPool
+	p.Lock()
+	defer p.Unlock()
+	for _, k := range p.quarantine {
+		if r := p.recs[k]; r != nil && r.freed {
+			verifCheckPoison(r)
+		}
+	}
+	return VerifPoolStats{p.gets, p.puts, p.owned, p.maxOwned, append([]string(nil), p.faults...)}
+}
+
+func verifStack() string {
+	if !verifPool.stacks {
+		return ""
+	}
+	var pcs [12]uintptr
+	n := runtime.Callers(4, pcs[:])
+	fr := runtime.CallersFrames(pcs[:n])
+	s := ""
+	for {
+		f, more := fr.Next()
+		s += fmt.Sprintf("%s:%d;", f.Function, f.Line)
+		if !more {
+			break
+		}
+	}
+	return s
+}
+
+func verifFault(msg string) {
+	if len(verifPool.faults) < 16 {
+		verifPool.faults = append(verifPool.faults, msg)
+	}
+}
+
+func verifCheckPoison(r *verifPoolRec) {
+	for i, b := range r.buf {
+		if b != verifPoison {
+			verifFault(fmt.Sprintf("write-after-recycle offset=%d value=%#x recycled-at=%s", i, b, r.stack))
+			for j := range r.buf {
+				r.buf[j] = verifPoison
+			}
+			return
+		}
+	}
+}
+
+func verifPoolGet() []byte {
+	p := &verifPool
+	if p.mode == VerifPoolOff {
+		return nil
+	}
+	p.Lock()
+	defer p.Unlock()
+	p.gets++
+	p.owned++
+	if p.owned > p.maxOwned {
+		p.maxOwned = p.owned
+	}
+	if p.mode == VerifPoolLIFO && len(p.quarantine) > 0 {
+		k := p.quarantine[len(p.quarantine)-1]
+		p.quarantine = p.quarantine[:len(p.quarantine)-1]
+		r := p.recs[k]
+		verifCheckPoison(r)
+		r.freed = false
+		return r.buf
+	}
+	buf := make([]byte, mtuLimit)
+	k := uintptr(unsafe.Pointer(unsafe.SliceData(buf)))
+	p.recs[k] = &verifPoolRec{buf: buf}
+	return buf
+}
+
+func verifPoolPut(buf []byte) bool {
+	p := &verifPool
+	if p.mode == VerifPoolOff {
+		return false
+	}
+	p.Lock()
+	defer p.Unlock()
+	p.puts++
+	buf = buf[:cap(buf)]
+	k := uintptr(unsafe.Pointer(unsafe.SliceData(buf)))
+	r := p.recs[k]
+	if r == nil { // not born in the pool: adopt
+		r = &verifPoolRec{buf: buf}
+		p.recs[k] = r
+		p.owned++
+	}
+	if r.freed {
+		verifFault(fmt.Sprintf("double-recycle first=%s second=%s", r.stack, verifStack()))
+		return true
+	}
+	p.owned--
+	r.freed = true
+	r.stack = verifStack()
+	for i := range buf {
+		buf[i] = verifPoison
+	}
+	p.quarantine = append(p.quarantine, k)
+	if p.mode == VerifPoolQuarantine && len(p.quarantine) > p.limit {
+		old := p.quarantine[0]
+		p.quarantine = p.quarantine[1:]
+		if or := p.recs[old]; or != nil {
+			verifCheckPoison(or)
+			delete(p.recs, old)
+		}
+	}
+	return true
+}
